@@ -167,6 +167,20 @@ add(
     "3/C05",
 )
 
+add(
+    "C19",
+    "Inductive step over an abstract registry state: the pre-state dict is constructed from finite-domain solver variables "
+    "(which short name resolves to which plugin, which plugins are registered) constrained by the representation invariant; "
+    "one real registry operation (add, add-instantiated, set_plugin, lookup, list; dotted / unknown names) with symbolic "
+    "arguments is executed and the post-state must be the concretisation of the updated abstract state (first registration "
+    "wins with exactly one PluginOverwriteWarning on conflict, full names reachable, errors leave the dict unchanged). "
+    "The three public registries get the same step plus dispatch of load_* to the resolved plugin for explicit / inferred format.",
+    "All variables are finite-domain: the solver's role is feasibility of (pre-state, operation) combinations and exhaustive "
+    "branching; the gain over the suite is induction over arbitrary invariant-satisfying pre-states. Entry-point loading is I/O.",
+    "3/C19",
+    "finite-domain symbolic execution (z3 feasibility per branch) of the real registry functions, inductive invariant",
+)
+
 ALL = [f"C{i:02d}" for i in range(1, 21)]
 
 
